@@ -65,13 +65,20 @@ func genConcurrencyPlan(seed uint64, tier string) *Plan {
 	c.Name = "svc.example.com"
 	nl := g.rng(2, 4)
 	shared := "pool-a.backends.test"
+	anyNamedOnly := false
 	for i := 0; i < nl; i++ {
 		l := ListenCfg{Addr: fmt.Sprintf("10.0.0.%d", i+1), UDP: 5060}
 		if g.chance(60) {
 			l.TCP = 5060
 		}
-		// a literal UDP backend of its own keeps the rotation non-empty
-		l.Backends = append(l.Backends, fmt.Sprintf("udp://10.2.%d.1:5070", i))
+		// a literal UDP backend of its own keeps the rotation non-empty; some entries rely on the
+		// name alone (its answers are never empty then, so the rotation must not be empty at any instant)
+		namedOnly := i < 2 && g.chance(35)
+		if !namedOnly {
+			l.Backends = append(l.Backends, fmt.Sprintf("udp://10.2.%d.1:5070", i))
+		} else {
+			anyNamedOnly = true
+		}
 		if i < 2 || g.chance(40) {
 			l.Backends = append(l.Backends, "udp://"+shared+":5070") // two listen entries share the name
 		}
@@ -93,7 +100,29 @@ func genConcurrencyPlan(seed uint64, tier string) *Plan {
 				ips = append(ips, ip)
 			}
 		}
-		if len(ips) == 0 || g.chance(10) {
+		if anyNamedOnly && len(ips) == 0 {
+			ips = []string{pool[g.intn(4)]}
+		}
+		if anyNamedOnly && g.chance(40) && i > 0 {
+			// the name moves: every address is replaced at once
+			prev := sc[len(sc)-1].IPs
+			ips = nil
+			for _, ip := range pool[:4] {
+				in := false
+				for _, q := range prev {
+					if q == ip {
+						in = true
+					}
+				}
+				if !in {
+					ips = append(ips, ip)
+				}
+			}
+			if len(ips) == 0 {
+				ips = []string{pool[4]}
+			}
+		}
+		if !anyNamedOnly && (len(ips) == 0 || g.chance(10)) {
 			sc = append(sc, simnet.Answer{Fail: true})
 		} else {
 			sc = append(sc, simnet.Answer{IPs: ips})
